@@ -3,13 +3,13 @@
    C01 (read-your-writes / cookie / read-only), C04 (compaction invisible),
    reload through unmount+mount.  State = the layer-A variables only. *)
 EXTENDS BlobStore, TraceKit
-VARIABLES live, ro, vttl
-vars == <<live, ro, vttl>>
+VARIABLES live, ro, vttl, dirty   \* dirty: keys appended to since the pending compaction started
+vars == <<live, ro, vttl, dirty>>
 tvars == <<vars, kitvars>>
 AllKeys == {1, 2, 3}
 
-TraceInit == live = [k \in AllKeys |-> None] /\ ro = FALSE /\ vttl = "" /\ KitInit
-TraceReset == IsReset /\ live' = [k \in AllKeys |-> None] /\ ro' = FALSE /\ vttl' = Ev.vttl
+TraceInit == live = [k \in AllKeys |-> None] /\ ro = FALSE /\ vttl = "" /\ dirty = {} /\ KitInit
+TraceReset == IsReset /\ live' = [k \in AllKeys |-> None] /\ ro' = FALSE /\ vttl' = Ev.vttl /\ dirty' = {}
 TraceSkip == SkipStep /\ UNCHANGED vars
 
 TWrite ==
@@ -17,35 +17,37 @@ TWrite ==
   /\ \/ Strict /\ WriteStrict(live, ro, Ev.k, Ev.c, Ev.d, Ev.m, Ev.res, live')
      \/ Deviate("C01-unchanged-keeps-metadata") /\ Ev.unch
         /\ DevWriteUnchanged(live, ro, vttl, Ev.k, Ev.c, Ev.d, Ev.m, Ev.res, live')
+  /\ dirty' = IF Ev.res = "ok" /\ ~Ev.unch THEN dirty \cup {Ev.k} ELSE dirty
   /\ UNCHANGED <<ro, vttl>>
 TDelete ==
   /\ IsEvent("delete")
   /\ \/ Strict /\ DeleteStrict(live, Ev.k, Ev.c, Ev.res, live')
      \/ Deviate("C01-empty-delete-noop") /\ DevDeleteEmpty(live, Ev.k, Ev.c, Ev.res, live')
+  /\ dirty' = IF Ev.res = "ok" THEN dirty \cup {Ev.k} ELSE dirty
   /\ UNCHANGED <<ro, vttl>>
 TRead ==
   /\ IsEvent("read")
   /\ \/ Strict /\ ReadObsStrict(live, Ev.k, Ev.c, Ev)
      \/ Deviate("C01-empty-any-cookie") /\ DevReadEmptyObs(live, Ev.k, Ev.c, Ev)
   /\ UNCHANGED vars
-TRo == IsEvent("ro") /\ Strict /\ Ev.res = "ok" /\ ro' = Ev.on /\ UNCHANGED <<live, vttl>>
+TRo == IsEvent("ro") /\ Strict /\ Ev.res = "ok" /\ ro' = Ev.on /\ UNCHANGED <<live, vttl, dirty>>
 (* reload (unmount + mount = index replay) is invisible *)
 TRestart ==
   /\ IsEvent("restart") /\ Ev.res = "ok"
   /\ \/ Strict /\ live' = live
      \/ Deviate("C01-empty-lost-on-reload") /\ live' = DropEmpties(live)
-  /\ UNCHANGED <<ro, vttl>>
+  /\ UNCHANGED <<ro, vttl, dirty>>
 (* compaction: starting one and cleaning up never change anything; a commit is invisible *)
-TCompact == IsEvent("compact") /\ Strict /\ UNCHANGED vars
+TCompact == IsEvent("compact") /\ Strict /\ dirty' = {} /\ UNCHANGED <<live, ro, vttl>>
 TCleanup == IsEvent("cleanup") /\ Strict /\ UNCHANGED vars
 TCommit ==
   /\ IsEvent("commit")
   /\ \/ Ev.res = "ok" /\ \E S \in SUBSET {"C04-empty-dropped", "C04-ttl-filter"} :
           /\ DeviateAll(S)
           /\ LET l1 == IF "C04-empty-dropped" \in S THEN DropEmpties(live) ELSE live
-             IN live' = IF "C04-ttl-filter" \in S THEN DropTtl(l1, vttl) ELSE l1
+             IN live' = IF "C04-ttl-filter" \in S THEN DropTtl(l1, vttl, dirty) ELSE l1
      \/ Ev.res # "ok" /\ Strict /\ live' = live
-  /\ UNCHANGED <<ro, vttl>>
+  /\ UNCHANGED <<ro, vttl, dirty>>
 
 TraceNext == TraceReset \/ TraceSkip \/ TWrite \/ TDelete \/ TRead \/ TRo \/ TRestart \/ TCompact \/ TCleanup \/ TCommit
 TraceSpec == TraceInit /\ [][TraceNext]_tvars
